@@ -330,13 +330,13 @@ ADDENDA = {
            "(shared with C02); comparison operators of the integer-secret class promote floats whenever its arithmetic does.",
     "C15": " Also: the per-position multiplexer if_then_else selects exactly (shared with C02); selector, read and write are "
            "stated over symbolic sequences (any spelling of the iteration); Array(x) stores a list of its own; helpers whose every "
-           "return is a selection count as selections.",
+           "return is a selection count as selections; a multi-dimensional read written as self[item..][item..] is self[item[0]][item[1:]].",
     "C16": " Also: the evaluated skip predicate of the unpack range check (shared with C03); the checks dominating the bit "
            "construction of to_bits imply 0 <= v < 2^n (interval reasoning).",
     "C17": " A for_each_in that keeps its own worklist instead of recursing is reported as undecided for coverage and order "
            "(a loop invariant over the worklist is not established), except that first-in-first-out consumption with conversion at "
            "removal is breadth-first and therefore a violation.",
-    "C18": " Also: under autoprove the exit callback runs backend.prove() exactly once and under no other condition; the recorded "
+    "C18": " The decision table evaluates what the interposed sys.exit stores for each argument (None, 0, 3, True, 'msg', object, '', []) and the never-called row. Also: under autoprove the exit callback runs backend.prove() exactly once and under no other condition; the recorded "
            "exit code / exception is written by the interposed hooks only (never reset); the decision table's rows carry what the "
            "exception hook records for the row's exception (including one raised without arguments) and methods / properties of "
            "the overrider are evaluated on the row; uncaught exceptions may instead be read from the interpreter's own record "
